@@ -218,6 +218,9 @@ Definition agg (f : afun) (l : list val) : val :=
 Definition windowed (f : afun) : bool :=
   match f with FLag _ _ | FLead _ _ | FRank | FRatio => false | _ => true end.
 
+(* the functions whose value depends on the ORDER inside the partition (rank counts, ratio_to_report sums: they do not) *)
+Definition needs_order (f : afun) : bool := match f with FRank | FRatio => false | _ => true end.
+
 Definition ERR_RATIO0 : string := "2-1-3-1".
 
 (* ---------------------------------------------------------------- the value attached to one datapoint *)
